@@ -93,6 +93,16 @@ def combinators(ctx):
     from flowjax.bisection_search import AutoregressiveBisectionInverter
     big.append(("bnaf-net-integer-search-bounds", 2, None, perturb(BlockAutoregressiveNetwork(
         jr.PRNGKey(10), dim=2, depth=1, block_dim=3, inverter=AutoregressiveBisectionInverter(lower=-10, upper=10)), rng, 0.3)))
+    import equinox as _eqx
+
+    class _LearnableAct(_eqx.Module):  # a user-defined increasing activation with its own trainable parameter (seeded change C02e)
+        a: object
+
+        def __call__(self, v):
+            return v + jnp.tanh(self.a * v)
+
+    big.append(("bnaf-net-learnable-activation", 2, None, perturb(BlockAutoregressiveNetwork(
+        jr.PRNGKey(12), dim=2, depth=1, block_dim=3, activation=_LearnableAct(jnp.asarray(0.7))), rng, 0.3)))
     big.append(("tri-affine-dim12-upper", 12, None, B.TriangularAffine(jnp.asarray(rng.normal(0, 1, 12)), jnp.asarray(rng.normal(0, 0.5, (12, 12)) + 2 * np.eye(12)), lower=False)))
     for i, item in enumerate(big):  # quick tier: half of them per run, rotating with the seed
         if not ctx.quick or (i + ctx.seed) % 2 == 0:
